@@ -4,7 +4,7 @@ import re, sys
 sys.path.insert(0, "/verif")
 from harness import tlc
 from harness import drive_infer as DI, drive_registry as DR, drive_cli as DC, drive_header as DH, drive_session as DSS, drive_order as DO, drive_layout as DL, drive_strtypes as DS, drive_module as DM
-K = {j: 4 for j in ("j1", "j2", "f1", "f2", "r1", "r2")}; K["j3"] = 2
+K = {j: 4 for j in ("j1", "j2", "f1", "f2", "r1", "r2", "c1", "c2", "c3")}; K["j3"] = 2
 F = {"f1": 1, "f2": 2}
 runs = [
  ("MC_Infer", DI.CFG_INFER % (2, "FALSE", "small")),
